@@ -51,7 +51,7 @@ Stay == UNCHANGED <<l, cid, api>>
 TCall ==
     /\ pc = "idle" /\ Line("call")
     /\ LET c == Rec[l] IN
-          /\ cid' = c.id /\ api' = c.api
+          /\ cid' = c.id /\ api' = (IF c.nocb THEN "solve_ivp" ELSE c.api)
           /\ P' = [x0 |-> c.x0.r, xe |-> c.xend.r, slo |-> c.m.xend_lo, shi |-> c.m.xend_hi,
                    nmax |-> IF c.maxsteps < 0 THEN (IF c.api = "low" THEN 100000 ELSE 0) ELSE c.maxsteps,
                    hasFs |-> c.hasFs, hasMin |-> c.hasMin, hmax |-> 0]
